@@ -5,6 +5,7 @@ mod util;
 mod c_path;
 mod c_line;
 mod c_sysl;
+mod c_gate;
 
 use std::io::Write;
 
@@ -64,6 +65,7 @@ fn main() {
         "path" => if replay { replay_loop(&mut out, c_path::replay_line) } else { c_path::run(&opts, &mut out) },
         "line" => if replay { replay_loop(&mut out, c_line::replay_line) } else { c_line::run(&opts, &mut out) },
         "sysl" => if replay { replay_loop(&mut out, c_sysl::replay_line) } else { c_sysl::run(&opts, &mut out) },
+        "gate" => if replay { replay_loop(&mut out, c_gate::replay_line) } else { c_gate::run(&opts, &mut out) },
         "path-oracle" => c_path::oracle(&opts, &mut out),
         _ => {
             eprintln!("unknown component {}", comp);
